@@ -64,7 +64,21 @@ W_D10D_OVERFLOW = {'steps': [D(['clear', 320]),
 W_RECURSION = {'steps': [P(['def', 'A$', ['X$'], ['fn', 'A$', [cat(sv('X$'), lit('a'))]]]),
                          P(['let', sv('C$'), ['fn', 'A$', [cat(lit('b'), lit('c'))]]]),
                          P(['let', sv('Q!'), FRE_S])]}
-WITNESSES = [W_D16, W_D15, W_D10A, W_D10B, W_D10C, W_D10D_ALIAS, W_D10D_OVERFLOW, W_RECURSION]
+# console INPUT: the typed strings must stay rooted until all variables have been assigned (creating the first
+# variable collects garbage when memory is nearly exhausted)
+def input_case(k, n, words, names=('X$', 'Y$', 'C$')):
+    lvs = [sv(nm) for nm in names[:len(words)]]
+    return {'steps': [D(['clear', k]), D(['let', sv('B$'), lit('x')]), D(['let', sv('A$'), lit('y')])] +
+            [P(['let', sv('A$'), cat(sv('B$'), sv('A$'), sv('B$'))]) for _ in range(n)] +
+            [P(['let', sv('A$'), lit('')]), P(['input', lvs, list(words)])] +
+            [P(['let', sv('A$'), l]) for l in lvs] + [P(['let', sv('Q!'), FRE_S])] + [P(['let', sv('A$'), l]) for l in lvs]}
+
+
+W_INPUT = {'steps': [D(['clear', 39]), D(['let', sv('B$'), lit('x')]), D(['let', sv('C$'), lit('y')]),
+                     P(['let', sv('A$'), cat(sv('B$'), sv('C$'), sv('B$'), sv('C$'), sv('B$'))]),
+                     P(['let', sv('A$'), lit('')]), P(['input', [sv('X$'), sv('Y$')], ['abcdefgh', 'ijkl']]),
+                     P(['let', sv('A$'), sv('Y$')]), P(['let', sv('Q!'), FRE_S]), P(['let', sv('A$'), sv('Y$')])]}
+WITNESSES = [W_D16, W_D15, W_D10A, W_D10B, W_D10C, W_D10D_ALIAS, W_D10D_OVERFLOW, W_RECURSION, W_INPUT]
 
 
 class C10(core.Check):
@@ -120,6 +134,12 @@ class C10(core.Check):
                 ns = 120
             else:
                 ns = rng.choice([5, 10, 20, 30, 60])
+            if i % 6 == 5:
+                # INPUT of new variables at nearly exhausted string space with garbage present
+                words = [''.join(rng.choice('abcdefgh0123') for _ in range(rng.choice([1, 2, 4, 8, 12])))
+                         for _ in range(rng.choice([1, 2, 2, 3]))]
+                out.append(input_case(rng.randrange(25, 110), rng.randrange(0, 5), words))
+                continue
             out.append(L.gen_history(rng, ns))
         for c in out:
             for s in c['steps']:
@@ -145,7 +165,8 @@ class C10(core.Check):
         return L.encode_trace(res)
 
     def model_term(self, case):
-        return L.model_term(case, self._run(case)['cfg'])
+        res = self._run(case)
+        return L.model_term(case, res['cfg'], len(res['steps']))
 
     def oracle(self, case, out):
         return L.check_trace(case, self._run(case))
